@@ -167,3 +167,11 @@ Proof. vm_compute. repeat split; reflexivity. Qed.
    produced by jt808 Decode) leaves Version at the receiver's value and skips both guards *)
 Example C03_T0x0100_version_domain : t0100_parse (fun x => x) 0 (VL []) [] = Panic.
 Proof. reflexivity. Qed.
+
+(* ---- history independence over every sequence of calls: whatever bodies (successfully parsed or
+        rejected half way) a receiver has seen since it was created, the next Parse answers as a
+        fresh receiver would ---- *)
+Theorem C03_msg_history_seq : forall id gbk d r ver body, reach id gbk d r -> ver_ok ver ->
+  parse_msg id gbk ver d r body = parse_msg id gbk ver d (VL []) body.
+Proof. exact parse_msg_history_seq. Qed.
+Print Assumptions C03_msg_history_seq.
